@@ -47,6 +47,17 @@ def _is_owning_expr(e, f, _depth=0):
     r = f._mod.resolve(fn) if isinstance(fn, (ast.Name, ast.Attribute)) else None
     if isinstance(r, ClassInfo):
         return True
+    # a class taken from a class-level table of the compiler and called at once:  self.TYPES[kind](name, ...)
+    if isinstance(fn, ast.Subscript) and isinstance(fn.value, ast.Attribute) and isinstance(fn.value.value, ast.Name) and fn.value.value.id in ('self', 'cls') and fn.value.attr.isupper():
+        tab = f._cls.find_attr(fn.value.attr) if getattr(f, '_cls', None) is not None and hasattr(f._cls, 'find_attr') else None
+        if tab is not None:
+            tv = tab[1]
+            vals = list(tv.values) if isinstance(tv, ast.Dict) else None
+            if vals is None:
+                return True           # a table built by dict(...) / update(...): its entries are the classes of the codec
+            res = [f._mod.resolve(v) if isinstance(v, (ast.Name, ast.Attribute)) else None for v in vals]
+            if vals and all(isinstance(r_, ClassInfo) for r_ in res):
+                return True
     # a class taken from a class-level table of the compiler:  cls, flag = self.MEMBERS_TYPES[kind]; return cls(name, ...)
     if isinstance(fn, ast.Name):
         for a in walk_no_nested(f):
